@@ -238,29 +238,30 @@ func checkRuneErrorWidth(r *Run, prog *Program, pfx string) {
 		ps.Inline = func(c *ssa.Function) bool { return mention[c] && c != fn && !recursive(prog, c) }
 		ok := true
 		where := ""
+		wDot, wComma := "."+fW+")", "."+fW+","
 		for _, sm := range ps.Run(fn) {
 			assumed, width := false, false
 			for k, v := range sm.St.facts {
 				if strings.HasPrefix(k, "cmp(==,") && strings.Contains(k, "const(65533)") && v {
 					assumed = true
 				}
-				if strings.HasPrefix(k, "cmp(") && (strings.Contains(k, ".w)") || strings.Contains(k, ".w,") || strings.Contains(k, "res(call(") && strings.Contains(k, "),1)")) {
+				if strings.HasPrefix(k, "cmp(") && (strings.Contains(k, wDot) || strings.Contains(k, wComma) || strings.Contains(k, "res(call(") && strings.Contains(k, "),1)")) {
 					width = true
 				}
 			}
 			for k := range sm.St.eqc {
-				if strings.HasSuffix(k, ".w)") || (strings.Contains(k, "res(call(") && strings.HasSuffix(k, "),1)")) {
+				if strings.HasSuffix(k, wDot) || (strings.Contains(k, "res(call(") && strings.HasSuffix(k, "),1)")) {
 					width = true
 				}
 			}
 			for k := range sm.St.neqc {
-				if strings.HasSuffix(k, ".w)") || (strings.Contains(k, "res(call(") && strings.HasSuffix(k, "),1)")) {
+				if strings.HasSuffix(k, wDot) || (strings.Contains(k, "res(call(") && strings.HasSuffix(k, "),1)")) {
 					width = true
 				}
 			}
 			for _, res := range sm.Results {
 				// a predicate that answers with the width test itself (`return rn == RuneError && w == 0`)
-				if res != nil && (strings.Contains(res.Key(), ".w)") || strings.Contains(res.Key(), ".w,")) {
+				if res != nil && (strings.Contains(res.Key(), wDot) || strings.Contains(res.Key(), wComma)) {
 					width = true
 				}
 			}
